@@ -247,6 +247,40 @@ func run(r *mon.Run) {
 		}
 	}
 
+	// the exported verification helper the signer is built on (and other programs call directly): true exactly for the
+	// signature of these bytes under this key, and its two results never contradict each other
+	if r.Shard == 0 {
+		g := r.Rand("verify-helper", 0)
+		for i := 0; i < 60; i++ {
+			pub, priv := gen.EdKey(g)
+			otherPub, _ := gen.EdKey(g)
+			data := g.Bytes(mon.Pick(g, []int{0, 1, 31, 32, 64, 100, 1000}))
+			sig := ed25519.Sign(priv, data)
+			flip := append([]byte{}, sig...)
+			flip[g.Intn(64)] ^= 1 << uint(g.Intn(8))
+			for name, q := range map[string]struct {
+				pub       ed25519.PublicKey
+				sig, data []byte
+				want      bool
+			}{
+				"genuine": {pub, sig, data, true}, "bit-flipped signature": {pub, flip, data, false}, "other key": {otherPub, sig, data, false},
+				"data extended": {pub, sig, append(append([]byte{}, data...), 0), false}, "63-byte signature": {pub, sig[:63], data, false},
+				"65-byte signature": {pub, append(append([]byte{}, sig...), '\n'), data, false}, "empty signature": {pub, nil, data, false}, "all-zero signature": {pub, make([]byte, 64), data, false},
+			} {
+				var ok bool
+				var err error
+				p, pv := r.Call("verify-helper/"+name, q.sig, func() { ok, err = integrityblock.VerifyEd25519Signature(q.pub, q.sig, q.data) })
+				if p || ok != q.want || ok != (err == nil) {
+					r.Eval("helper:WRONG-VERDICT")
+					r.Violation("ib:verify-helper:"+name, fmt.Sprintf("VerifyEd25519Signature(%s) = (%v, %v), panic=%v; expected %v with a matching error value", name, ok, err, pv, q.want), nil)
+				} else {
+					r.Eval("helper:verdict-ok")
+				}
+			}
+		}
+		r.Distinct("verify-helper")
+	}
+
 	// hostile trailers / short files through the library
 	if r.Shard == 0 {
 		g := r.Rand("trailer", 0)
